@@ -38,8 +38,10 @@ def gen(rng, tier):
         k1, k2 = rng.randint(1, 3), rng.randint(1, 3)
         e1 = rng.choice(['', '_', 'e', 'ε'])
         e2 = e1 if rng.random() < 0.66 else rng.choice(['', '_', 'e', 'ε'])
-        n1 = G.random_nfa(rng, k1, rng.choice(['a', 'ab', 'b']), e1, names=pool[:k1], peps=0.3)
-        n2 = G.random_nfa(rng, k2, rng.choice(['a', 'ab', 'b']), e2, names=pool[k1:k1 + k2], peps=0.3)
+        s1 = rng.choice(['a', 'ab', 'b'] + ([x for x in ['a' + e2, e2 + 'b'] if e2 and e2 != e1]))
+        s2 = rng.choice(['a', 'ab', 'b'])      # (the epsilon symbol of the result is the first operand's: it must not be a symbol of the second)
+        n1 = G.random_nfa(rng, k1, s1, e1, names=pool[:k1], peps=0.3)
+        n2 = G.random_nfa(rng, k2, s2, e2, names=pool[k1:k1 + k2], peps=0.3)
         cases.append({'N1': n1, 'N2': n2, 'start': rng.randint(0, 3), 'history': rng.randint(0, 3), 'touch': rng.random() < 0.5})
     return cases
 
